@@ -365,7 +365,7 @@ def check(run: Run) -> None:
                 conditional_create = True  # mkdir(parents=True, exist_ok=True) creates only what is missing
                 run.instance("R17.8", f"{mod.relpath}:{s.call.lineno}", f"{fi.qualname}: error returns reachable after {norm(s.call)}: {len(errs)}", ok=not errs)
                 if errs and conditional_create:
-                    run.violation("R17.8", mod, fi.qualname, s.call, "parent directories created by this call are not removed when a later step fails and the call returns status=error",
+                    run.violation("R17.8", mod, fi.qualname, "<target>.parent.mkdir(parents=True, exist_ok=True)" if norm(s.call).endswith(".parent.mkdir(parents=True, exist_ok=True)") else norm(s.call), "parent directories created by this call are not removed when a later step fails and the call returns status=error",
                                   error_returns=[cfg.nodes[r].lineno for r in errs], failing_input="target in a not-yet-existing directory + mkstemp/write failure (e.g. ENOSPC): status=error but the directory now exists")
 
 
